@@ -1,23 +1,25 @@
 import LopdfModel.Model.Outlines
 import LopdfModel.Thm.C12
+import LopdfModel.Model.ExtractText
+import LopdfModel.Thm.C04
+import LopdfModel.Lemmas.C09Ops
+import LopdfModel.Thm.C16
 import LopdfModel.Gen.Tables
 /-
   C13 — read-only queries are total on arbitrary object graphs: property theorems
-  (state of the code after the fixes e8b231c, cc9b602, 6000f3a, 79a3229, fc8a978).
+  (code with all C13 repairs, incl. the seen sets of bca5e67 and ba860eb).
 
-  * For EVERY document no read-only query panics: `getObjectMut_total`, `getPageContent_ok`,
-    `getPageResources_total`, `getPageFonts_total`, `getPageAnnotations_total`,
-    `getFontEncoding_total`, `getPageImages_total`, `buildOutlineResult_total`, `getOutline_total`,
-    `namedDests_no_panic`, `getOutlines_no_panic`, `getPages_total` / `getPages_eq_pageIter`,
-    `getObjectPage_total`, `getToc_no_panic` (the Option-valued models `deref`, `getObject`,
-    `getDictionary`, `catalog`, `getPageContents`, `getEncrypted`, `getCryptFilters`, `pageIter`
-    contain no panicking operation and terminate by their fuel-free definitions).
-  * `get_pages` allocates at most max(4, 2·pages) elements (`collectPages_capacity`).
-  * The `Next` loop of `get_outlines` is defined without fuel (seen_next measure); fuel runs out
-    only through nested `First` links (`walkOutlines_none`); a cyclic `Next` is an error
-    (`getOutlines_next_cycle_errors`).
-  * Still FALSE of the code (open findings F-C13-b2, F-C13-d4): cyclic `First` and cyclic name-tree
-    `Kids` recurse without bound — `getOutlines_first_cycle_diverges`, `namedDests_kids_cycle_diverges`.
+  For EVERY document every read-only query returns a value or an error:
+  * no panic: `getObjectMut_total`, `getPageContent_filters_ok`, `extractText_no_panic`, `getPageResources_total`,
+    `getPageFonts_total`, `getPageAnnotations_total`, `getFontEncoding_total`, `getPageImages_total`,
+    `buildOutlineResult_total`, `getOutline_total`, `namedDests_total`, `getOutlines_total`,
+    `getPages_total` / `getPages_eq_pageIter`, `getObjectPage_total`, `getToc_total`
+    (the Option-valued models `deref`, `getObject`, `getDictionary`, `catalog`, `getPageContents`,
+    `getEncrypted`, `getCryptFilters`, `pageIter` contain no panicking operation);
+  * termination: no model function takes fuel; each walker is defined by well-founded recursion
+    on the guard the code has, so termination on every document is part of the definitions;
+  * cyclic `First` / `Kids` links are errors (`getOutlines_first_cycle_errors`,
+    `namedDests_kids_cycle_errors`); `get_pages` allocates at most max(4, 2·pages) elements.
 -/
 namespace Lopdf.Q13
 open Gen
@@ -109,10 +111,6 @@ theorem getObjectMut_total (os : Objects) (id : ObjId) (s : String) : getObjectM
   rw [getObjectMut_eq_getObject]; cases getObject os id <;> simp [Outcome.ofOpt]
 
 /-! ## page content, resources, fonts, annotations, font encoding: total on every document -/
-
-/-- `get_page_content` always returns `Ok`, for every document and every behaviour of the filters -/
-theorem getPageContent_ok (decomp : Dict → Bytes → Option Bytes) (os : Objects) (pid : ObjId) :
-    ∃ b, getPageContent decomp os pid = .ok b := ⟨_, rfl⟩
 
 /-- `get_page_resources` is total: the `Parent` walk is guarded by `already_seen`
 (its termination is `collectResources`' own fuel-free definition) and nothing in it can panic -/
@@ -228,160 +226,149 @@ theorem getOutline_total (os : Objects) (node : Dict) (named : Named) (s : Strin
     | (simp at h; done)
     | exact buildOutlineResult_total _ _ _ _ _ h
 
-theorem firstStep_no_panic (sub : Obj → Named → WalkRes) (hs : ∀ f m s, sub f m ≠ some (.panic s))
-    (node : Dict) (st : List Outline × Named) (s : String) : firstStep sub node st ≠ some (.panic s) := by
-  unfold firstStep
+theorem wrapSub_no_panic (st : List Outline × Named) (r : WalkOut) (s : String) (h : r.1 ≠ .panic s) :
+    (wrapSub st r).1 ≠ .panic s := by
+  unfold wrapSub
   split
   · simp
-  · split
-    · simp
-    · intro h; exact hs _ _ _ h
+  · simp
+  · rename_i s' hs; intro h'; simp at h'; subst h'; exact h hs
 
-theorem firstStep_none (sub : Obj → Named → WalkRes) (node : Dict) (st : List Outline × Named)
-    (h : firstStep sub node st = none) : ∃ f m, sub f m = none := by
-  unfold firstStep at h
-  split at h
-  · simp at h
-  · split at h
-    · simp at h
-    · exact ⟨_, _, h⟩
+/-- well-founded induction on the walker's own measure (objects not yet seen, size of an inline node) -/
+theorem walkG_no_panic_aux (os : Objects) (hgo : ∀ node named s, getOutline os node named ≠ .panic s) :
+    ∀ (u sz : Nat) (node : Dict) (acc : List Outline) (named : Named) (seen : List ObjId),
+      unseen os seen = u → sizeOf node = sz → ∀ s, (walkG os node acc named seen).val.1 ≠ .panic s := by
+  intro u
+  induction u using Nat.strongRecOn with
+  | ind u ihu =>
+    intro sz
+    induction sz using Nat.strongRecOn with
+    | ind sz ihsz =>
+      intro node acc named seen hu hsz s
+      have IH1 : ∀ (node' : Dict) acc' named' seen', unseen os seen' < unseen os seen →
+          ∀ s, (walkG os node' acc' named' seen').val.1 ≠ .panic s :=
+        fun node' acc' named' seen' h s => ihu _ (hu ▸ h) _ node' acc' named' seen' rfl rfl s
+      have IH2 : ∀ (node' : Dict) acc' named' seen', unseen os seen' ≤ unseen os seen → sizeOf node' < sizeOf node →
+          ∀ s, (walkG os node' acc' named' seen').val.1 ≠ .panic s := by
+        intro node' acc' named' seen' h1 h2 s
+        rcases Nat.lt_or_eq_of_le h1 with h | h
+        · exact IH1 _ _ _ _ h s
+        · exact ihsz _ (hsz ▸ h2) node' acc' named' seen' (h.trans hu) rfl s
+      rw [walkG]
+      split
+      · rename_i s' hp; exact absurd hp (hgo _ _ _)
+      · extract_lets st fr
+        have Ffr : ∀ s', fr.val.1 ≠ .panic s' := by
+          intro s'
+          simp only [fr]
+          split
+          · simp
+          · rename_i d hf
+            apply wrapSub_no_panic
+            apply IH2 _ _ _ _ (Nat.le_refl _)
+            have := Dict.sizeOf_get_lt hf
+            simp at this; omega
+          · rename_i a b hf
+            split
+            · simp
+            · split
+              · simp
+              · rename_i hs d hd
+                apply wrapSub_no_panic
+                obtain ⟨o, hm⟩ := getDictionary_mem hd
+                exact IH1 _ _ _ _ (unseen_lt os seen (a, b) o hm hs) _
+          · simp
+        split
+        · rename_i acc2 named2 hok
+          split
+          · rename_i a b hn
+            split
+            · simp
+            · split
+              · rename_i hs next hd
+                obtain ⟨o, hm⟩ := getDictionary_mem hd
+                exact IH1 _ _ _ _ (Nat.lt_of_lt_of_le (unseen_lt os fr.val.2 (a, b) o hm hs) fr.property) _
+              · simp
+          · rename_i d hn
+            apply IH2 _ _ _ _ fr.property
+            have := Dict.sizeOf_get_lt hn
+            simp at this; omega
+          · simp
+        · simp
+        · rename_i s' hp; exact absurd hp (Ffr s')
 
-/-- the `Next` loop never panics if the `First` recursion does not -/
-theorem nextLoop_no_panic (os : Objects) (sub : Obj → Named → WalkRes) (hs : ∀ f m s, sub f m ≠ some (.panic s)) :
-    ∀ (node : Dict) (acc : List Outline) (named : Named) (seen : List ObjId) (s : String),
-      nextLoop os sub node acc named seen ≠ some (.panic s) := by
-  intro node acc named seen
-  fun_induction nextLoop os sub node acc named seen <;> intro s
-  all_goals first
-    | (rename_i hp; intro _; exact getOutline_total _ _ _ _ hp)
-    | (rename_i ih; exact ih s)
-    | (simp; done)
-    | (rename_i hfs; rw [hfs]; simp; done)
-    | (intro h; rename_i hfs _; rw [h] at hfs; exact firstStep_no_panic sub hs _ _ _ hfs)
-    | (exact firstStep_no_panic sub hs _ _ s)
-    | skip
+/-- **`get_outlines` never panics and always terminates** — the guarded walker (`seen` set threaded
+through `First` and `Next`, bca5e67) is defined without fuel, so this is a statement about every
+document, every start node and every `seen` set; termination is part of the definition. -/
+theorem walkG_no_panic (os : Objects) (node : Dict) (acc : List Outline) (named : Named) (seen : List ObjId)
+    (s : String) : (walkG os node acc named seen).val.1 ≠ .panic s :=
+  walkG_no_panic_aux os (fun _ _ _ => getOutline_total _ _ _ _) _ _ node acc named seen rfl rfl s
 
-/-- **the `Next` loop itself always terminates**: being defined without fuel it returns `none`
-(= out of fuel) only when the recursion over some `First` link does -/
-theorem nextLoop_none (os : Objects) (sub : Obj → Named → WalkRes) :
-    ∀ (node : Dict) (acc : List Outline) (named : Named) (seen : List ObjId),
-      nextLoop os sub node acc named seen = none → ∃ f m, sub f m = none := by
-  intro node acc named seen
-  fun_induction nextLoop os sub node acc named seen
-  all_goals first
-    | (intro h; simp at h; done)
-    | (rename_i ih; exact ih)
-    | (intro h; rename_i hfs _; rw [h] at hfs; exact firstStep_none sub _ _ hfs)
-    | (exact firstStep_none sub _ _)
-    | skip
+/-! ### cyclic links are errors now -/
 
-/-- **`get_outlines` never panics**, for every document, node and fuel -/
-theorem walkOutlines_no_panic (os : Objects) :
-    ∀ (fuel : Nat) (node : Dict) (acc : List Outline) (named : Named) (s : String),
-      walkOutlines os fuel node acc named ≠ some (.panic s) := by
-  intro fuel
-  induction fuel with
-  | zero => intro node acc named s; simp [walkOutlines]
-  | succ n ih =>
-    intro node acc named s
-    unfold walkOutlines
-    apply nextLoop_no_panic
-    intro f m s'
+/-- a `First` reference that was already entered is an error: the walk stops instead of recursing -/
+theorem walkG_first_seen_err (os : Objects) (node : Dict) (acc : List Outline) (named : Named) (seen : List ObjId)
+    (a b : Nat) (hgo : ∀ s, getOutline os node named ≠ .panic s)
+    (hf : node.get K_First = some (.ref a b)) (hs : (a, b) ∈ seen) :
+    (walkG os node acc named seen).val.1 = .err "e" := by
+  rw [walkG]
+  split
+  · rename_i s' hp; exact absurd hp (hgo _)
+  · extract_lets st fr
+    have hfr : fr.val.1 = .err "e" := by
+      simp only [fr]
+      split
+      · rename_i h; rw [hf] at h; cases h
+      · rename_i h; rw [hf] at h; cases h
+      · rename_i a' b' h; rw [hf] at h; cases h; simp [hs]
+      · rfl
     split
-    · simp
-    · exact ih _ _ _ _
-
-/-- fuel runs out only through NESTED `First` links: if `n+1` levels are not enough, some `First`
-object resolves to a node on which `n` levels are not enough -/
-theorem walkOutlines_none (os : Objects) (n : Nat) (node : Dict) (acc : List Outline) (named : Named)
-    (h : walkOutlines os (n + 1) node acc named = none) :
-    ∃ first sub m, outlineNode os first = some sub ∧ walkOutlines os n sub [] m = none := by
-  unfold walkOutlines at h
-  obtain ⟨f, m, hf⟩ := nextLoop_none os _ _ _ _ _ h
-  split at hf
-  · simp at hf
-  · rename_i sub hsub; exact ⟨f, sub, m, hsub, hf⟩
-
-/-! ### cyclic links -/
+    · rename_i h; rw [hfr] at h; cases h
+    · rename_i e h; rw [hfr] at h; cases h; rfl
+    · rename_i h; rw [hfr] at h; cases h
 
 def catRef : Dict := [(ROOT, .ref 1 0)]
-
-/-- outline item 11 whose `Next` is itself -/
-def nextCycleDoc : Objects :=
-  [((1, 0), .dict [(K_Outlines, .ref 10 0)]),
-   ((10, 0), .dict [(K_First, .ref 11 0)]),
-   ((11, 0), .dict [(K_Title, .str [84] .lit), (K_Next, .ref 11 0)])]
-
-def item11 : Dict := [(K_Title, .str [84] .lit), (K_Next, .ref 11 0)]
-
-/-- **F-C13-b is repaired** (79a3229): on a cyclic `Next` link `get_outlines` stops with an error,
-with any fuel ≥ 1 (the former witness of non-termination) -/
-theorem getOutlines_next_cycle_errors : ∀ n, getOutlines catRef nextCycleDoc (n + 1) = some (.err "e") := by
-  intro n
-  unfold getOutlines
-  have hc : catalog catRef nextCycleDoc = some [(K_Outlines, .ref 10 0)] := by rfl
-  have ho : getDictInDict nextCycleDoc [(K_Outlines, .ref 10 0)] K_Outlines = some [(K_First, .ref 11 0)] := by rfl
-  have hf : getDictInDict nextCycleDoc [(K_First, .ref 11 0)] K_First = some item11 := by rfl
-  have hd : destTree nextCycleDoc [(K_Outlines, .ref 10 0)] = none := by rfl
-  simp only [hc, ho, hf, hd]
-  have h1 : ∀ named, getOutline nextCycleDoc item11 named = .err "e" := fun _ => rfl
-  have h3 : Dict.get item11 K_First = none := by rfl
-  have h4 : Dict.get item11 K_Next = some (.ref 11 0) := by rfl
-  have h5 : getDictionary nextCycleDoc (11, 0) = some item11 := by rfl
-  unfold walkOutlines
-  rw [nextLoop]
-  simp [h1, firstStep, h3, pushOutline]
-  split
-  · rename_i a b hn; rw [h4] at hn; cases hn
-    split
-    · rename_i next hd; rw [h5] at hd; cases hd
-      rw [nextLoop]
-      simp [h1, firstStep, h3, pushOutline]
-      split
-      · rename_i a b hn; rw [h4] at hn; cases hn; simp
-      · rename_i hn; rw [h4] at hn; cases hn
-      · rename_i hn _; exact absurd h4 (by intro h; exact (hn _ _ h))
-    · rename_i hd; rw [h5] at hd; cases hd
-  · rename_i hn; rw [h4] at hn; cases hn
-  · rename_i hn _; exact absurd h4 (by intro h; exact (hn _ _ h))
-
-/-- outline item 11 whose `First` is itself -/
 def firstCycleDoc : Objects :=
   [((1, 0), .dict [(K_Outlines, .ref 10 0)]),
    ((10, 0), .dict [(K_First, .ref 11 0)]),
    ((11, 0), .dict [(K_Title, .str [84] .lit), (K_First, .ref 11 0)])]
-
 def item11f : Dict := [(K_Title, .str [84] .lit), (K_First, .ref 11 0)]
 
-theorem firstCycle_walk : ∀ (n : Nat) (acc : List Outline) (named : Named),
-    walkOutlines firstCycleDoc n item11f acc named = none := by
-  intro n
-  induction n with
-  | zero => intro acc named; rfl
-  | succ n ih =>
-    intro acc named
-    unfold walkOutlines
-    have h1 : ∀ named, getOutline firstCycleDoc item11f named = .err "e" := fun _ => rfl
-    have h3 : Dict.get item11f K_First = some (.ref 11 0) := by rfl
-    have h4 : outlineNode firstCycleDoc (.ref 11 0) = some item11f := by rfl
-    rw [nextLoop]
-    simp [h1, firstStep, h3, h4, ih]
-
-/-- **F-C13-b2 (open)**: unbounded recursion of `get_outlines` on a cyclic `First` link — the fuelled
-model runs out of EVERY fuel -/
-theorem getOutlines_first_cycle_diverges : ∀ n, getOutlines catRef firstCycleDoc n = none := by
-  intro n
+/-- **F-C13-b2 is repaired**: on the former witness of unbounded recursion (outline item whose
+`First` is itself) `get_outlines` returns an error -/
+theorem getOutlines_first_cycle_errors : getOutlines catRef firstCycleDoc = .err "e" := by
   unfold getOutlines
   have hc : catalog catRef firstCycleDoc = some [(K_Outlines, .ref 10 0)] := by rfl
   have ho : getDictInDict firstCycleDoc [(K_Outlines, .ref 10 0)] K_Outlines = some [(K_First, .ref 11 0)] := by rfl
   have hf : getDictInDict firstCycleDoc [(K_First, .ref 11 0)] K_First = some item11f := by rfl
   have hd : destTree firstCycleDoc [(K_Outlines, .ref 10 0)] = none := by rfl
   simp only [hc, ho, hf, hd]
-  exact firstCycle_walk n [] []
-
-/-- `get_toc` inherits the divergence -/
-theorem getToc_first_cycle_diverges (memMax : Nat) : ∀ n, getToc memMax catRef firstCycleDoc n = none := by
-  intro n; unfold getToc; rw [getOutlines_first_cycle_diverges]
+  have h1 : ∀ named, getOutline firstCycleDoc item11f named = .err "e" := fun _ => rfl
+  have h3 : Dict.get item11f K_First = some (.ref 11 0) := by rfl
+  have h5 : getDictionary firstCycleDoc (11, 0) = some item11f := by rfl
+  have inner : ∀ acc named, (walkG firstCycleDoc item11f acc named [(11, 0)]).val.1 = .err "e" :=
+    fun acc named => walkG_first_seen_err _ _ _ _ _ 11 0 (by intro s; rw [h1]; simp) h3 (by simp)
+  rw [walkG]
+  split
+  · rename_i s' hp; rw [h1] at hp; cases hp
+  · extract_lets st fr
+    have hfr : fr.val.1 = .err "e" := by
+      simp only [fr]
+      split
+      · rename_i h; rw [h3] at h; cases h
+      · rename_i h; rw [h3] at h; cases h
+      · rename_i a' b' h; rw [h3] at h; cases h
+        split
+        · rename_i hs; simp at hs
+        · split
+          · rfl
+          · rename_i d hd'; rw [h5] at hd'; cases hd'
+            simp only [wrapSub, inner]
+      · rfl
+    split
+    · rename_i h; rw [hfr] at h; cases h
+    · rename_i e h; rw [hfr] at h; cases h; rfl
+    · rename_i h; rw [hfr] at h; cases h
 
 /-! ## get_named_destinations -/
 
@@ -424,77 +411,73 @@ theorem namesPart_total (os : Objects) (tree : Dict) (named : Named) (s : String
     · simp
     · exact namesLoop_total os _ _ _ _ (Nat.le_refl _)
 
-/-- **`get_named_destinations` never panics**, for every document, tree and fuel -/
-theorem namedDests_no_panic (os : Objects) :
-    ∀ (fuel : Nat) (tree : Dict) (named : Named) (s : String), namedDests os fuel tree named ≠ some (.panic s) := by
-  intro fuel
-  induction fuel with
-  | zero => intro tree named s; simp [namedDests]
-  | succ n ih =>
-    intro tree named s
-    unfold namedDests
-    have hfold : ∀ (ks : List Obj) (a : Option (Outcome Named)), a ≠ some (.panic s) →
-        ks.foldl (fun (acc : Option (Outcome Named)) (kid : Obj) =>
-            match acc with
-            | some (.ok nm) =>
-              match kid.asRef.bind (getDictionary os) with
-              | some kd => namedDests os n kd nm
-              | none => some (.ok nm)
-            | other => other) a ≠ some (.panic s) := by
-      intro ks
-      induction ks with
-      | nil => intro a ha; simpa using ha
-      | cons k rest ihk =>
-        intro a ha
-        simp only [List.foldl_cons]
-        apply ihk
-        split
-        · split
-          · exact ih _ _ _
-          · simp
-        · exact ha
-    intro h
-    simp only at h
-    split at h
-    · rename_i nm hk
-      simp at h; exact namesPart_total os tree nm s h
-    · rename_i other hne
-      split at h
-      · simp at h
-      · split at h
-        · simp at h
-        · exact hfold _ _ (by simp) h
+/-- **`get_named_destinations` never panics and always terminates**: the guarded recursion over
+`Kids` (ba860eb) is defined without fuel (stack machine, measure = objects not yet seen, pending
+work); every document, every stack, every `seen` set. -/
+theorem ndRun_no_panic (os : Objects) (fs : List NdFrame) (named : Named) (seen : List ObjId) (s : String) :
+    ndRun os fs named seen ≠ .panic s := by
+  fun_induction ndRun os fs named seen
+  all_goals first
+    | (simp; done)
+    | assumption
+    | (rename_i hp; exact absurd hp (namesPart_total _ _ _ _))
+    | skip
+
+theorem namedDests_total (os : Objects) (tree : Dict) (named : Named) (s : String) :
+    namedDests os tree named ≠ .panic s := by
+  unfold namedDests
+  split
+  · simp
+  · exact ndRun_no_panic _ _ _ _ _
+
+/-- a kid that was already entered is an error: the walk stops instead of recursing -/
+theorem ndRun_reenter_err (os : Objects) (kid : Obj) (kids : List Obj) (tree : Dict) (rest : List NdFrame)
+    (named : Named) (seen : List ObjId) (id : ObjId) (kd : Dict)
+    (hk : kid.asRef = some id) (hd : getDictionary os id = some kd) (hs : id ∈ seen) :
+    ndRun os ((kid :: kids, tree) :: rest) named seen = .err "e" := by
+  rw [ndRun]
+  split
+  · rename_i h; rw [hk] at h; cases h
+  · rename_i id' h; rw [hk] at h; cases h
+    split
+    · rename_i h; rw [hd] at h; cases h
+    · simp [hs]
 
 /-- tree 15 whose `Kids` contains itself -/
 def kidsCycleDoc : Objects := [((15, 0), .dict [(KIDS, .arr [.ref 15 0])])]
 def tree15 : Dict := [(KIDS, .arr [.ref 15 0])]
 
-/-- **F-C13-d4 (open)**: `get_named_destinations` recurses without bound on a cyclic `Kids` link -/
-theorem namedDests_kids_cycle_diverges : ∀ (n : Nat) (named : Named), namedDests kidsCycleDoc n tree15 named = none := by
-  intro n
-  induction n with
-  | zero => intro named; rfl
-  | succ n ih =>
-    intro named
-    unfold namedDests
-    have h1 : Dict.get tree15 KIDS = some (.arr [.ref 15 0]) := by rfl
-    have h2 : (Obj.ref 15 0).asRef.bind (getDictionary kidsCycleDoc) = some tree15 := by rfl
-    simp only [h1, Obj.asArr, List.foldl, h2, ih]
+/-- **F-C13-d4 is repaired**: on the former witness of unbounded recursion (name tree whose `Kids`
+contains itself) `get_named_destinations` returns an error -/
+theorem namedDests_kids_cycle_errors (named : Named) : namedDests kidsCycleDoc tree15 named = .err "e" := by
+  unfold namedDests
+  have he : ndEnter tree15 = some ([.ref 15 0], tree15) := by rfl
+  have hd : getDictionary kidsCycleDoc (15, 0) = some tree15 := by rfl
+  simp only [he]
+  rw [ndRun]
+  split
+  · rename_i h; simp [Obj.asRef] at h
+  · rename_i id h; simp [Obj.asRef] at h; subst h
+    split
+    · rename_i h; rw [hd] at h; cases h
+    · rename_i kd h; rw [hd] at h; cases h
+      simp only [List.not_mem_nil, dite_false, he]
+      exact ndRun_reenter_err _ _ _ _ _ _ _ (15, 0) tree15 rfl hd (by simp)
 
-/-- the former witnesses of F-C13-d / d2 / d3 are now skipped entries -/
-example : namedDests [((31, 0), .dict [([88], .null)])] 2 [(K_Names, .arr [.str [107] .lit, .ref 31 0])] []
-    = some (.ok []) := by rfl
-example : namedDests [((31, 0), .arr [.ref 3 0])] 2 [(K_Names, .arr [.str [107] .lit, .ref 31 0])] []
-    = some (.ok []) := by rfl
-example : namedDests [] 2 [(K_Names, .arr [.name [107], .dict [(K_D, .arr [.ref 3 0, .name [70]])]])] []
-    = some (.ok []) := by rfl
-/-- a well-formed leaf is loaded -/
-example : (namedDests [((31, 0), .dict [(K_D, .arr [.ref 3 0, .name [70]])])] 2
-    [(K_Names, .arr [.str [107] .lit, .ref 31 0])] []).map (fun r => r.map List.length) = some (.ok 1) := by rfl
+/-- malformed leaves are skipped; a well-formed leaf is loaded -/
+example : namedDests [((31, 0), .dict [(K_D, .arr [.ref 3 0, .name [70]])])]
+    [(K_Names, .arr [.str [107] .lit, .ref 31 0])] [] = .ok [([107], .dict (mkDest (.str [107] .lit) (.ref 3 0) (.name [70])))] := by
+  unfold namedDests
+  have he : ndEnter [(K_Names, .arr [.str [107] .lit, .ref 31 0])] = some ([], [(K_Names, .arr [.str [107] .lit, .ref 31 0])]) := by rfl
+  simp only [he]
+  rw [ndRun]
+  have hn : namesPart [((31, 0), .dict [(K_D, .arr [.ref 3 0, .name [70]])])] [(K_Names, .arr [.str [107] .lit, .ref 31 0])] []
+      = .ok [([107], .dict (mkDest (.str [107] .lit) (.ref 3 0) (.name [70])))] := by rfl
+  simp only [hn]
+  rw [ndRun]
 
-/-- **`get_outlines(None, None, ..)` never panics**, for every document and fuel -/
-theorem getOutlines_no_panic (trailer : Dict) (os : Objects) (fuel : Nat) (s : String) :
-    getOutlines trailer os fuel ≠ some (.panic s) := by
+/-- **`get_outlines(None, None, ..)` is total**: for every document it returns a value or an error -/
+theorem getOutlines_total (trailer : Dict) (os : Objects) (s : String) : getOutlines trailer os ≠ .panic s := by
   intro h
   unfold getOutlines at h
   split at h; · simp at h
@@ -502,12 +485,11 @@ theorem getOutlines_no_panic (trailer : Dict) (os : Objects) (fuel : Nat) (s : S
   simp only at h
   split at h
   · simp at h
-  · simp at h
   · rename_i s' hn
     split at hn
     · simp at hn
-    · exact namedDests_no_panic _ _ _ _ _ hn
-  · exact walkOutlines_no_panic _ _ _ _ _ _ h
+    · exact namedDests_total _ _ _ _ hn
+  · exact walkG_no_panic _ _ _ _ _ _ h
 
 /-! ## decode_text with the one-byte tables -/
 
@@ -677,20 +659,162 @@ theorem getObjectPage_total (memMax : Nat) (trailer : Dict) (os : Objects) (id :
 
 /-! ## get_toc -/
 
-/-- **`get_toc` never panics**, for every document and fuel -/
-theorem getToc_no_panic (memMax : Nat) (trailer : Dict) (os : Objects) (fuel : Nat)
+/-- **`get_toc` is total**: for every document it returns a value or an error -/
+theorem getToc_total (memMax : Nat) (trailer : Dict) (os : Objects)
     (hmem : (2 * os.length + 4) * 12 ≤ memMax) (hM : memMax ≤ ISIZE_MAX) (s : String) :
-    getToc memMax trailer os fuel ≠ some (.panic s) := by
+    getToc memMax trailer os ≠ .panic s := by
   intro h
   unfold getToc at h
   split at h
   · simp at h
-  · simp at h
-  · rename_i s' h'; exact getOutlines_no_panic _ _ _ _ h'
+  · rename_i s' h'; exact getOutlines_total _ _ _ h'
   · split at h
     · simp at h
     · rw [getPages_eq_pageIter memMax trailer os hmem hM] at h
       simp at h
 
+/-! ## get_page_content / extract_text on top of the filter, content and text models -/
+
+theorem frameLoop_no_panic (bpp rowLen : Nat) (content prev : Bytes) (s : String) :
+    frameLoop bpp rowLen content prev ≠ .panic s := by
+  fun_induction frameLoop bpp rowLen content prev
+  · simp
+  · simp
+  · simp
+  · rename_i ih
+    cases h : frameLoop bpp rowLen _ _ <;> simp_all [Outcome.map]
+
+theorem decompressPredictor_no_panic (data : Bytes) (params : Option Dict) (s : String) :
+    decompressPredictor data params ≠ .panic s := by
+  unfold decompressPredictor
+  split
+  · simp
+  · simp only []
+    split
+    · split
+      · simp
+      · unfold decodeFrame
+        split
+        · simp
+        · split
+          · simp
+          · exact frameLoop_no_panic _ _ _ _ _
+    · simp
+
+theorem applyFilter_no_panic (ext : Ext) (params : Option Dict) (name input : Bytes) (s : String) :
+    applyFilter ext params name input ≠ .panic s := by
+  unfold applyFilter
+  split
+  · exact decompressPredictor_no_panic _ _ _
+  · split
+    · exact decompressPredictor_no_panic _ _ _
+    · split
+      · exact a85_no_panic' _ _
+      · simp
+
+theorem filterLoop_no_panic (ext : Ext) (params : Nat → Option Dict) : ∀ (fs : List Bytes) (i : Nat) (input : Bytes) (s : String),
+    filterLoop ext params i fs input ≠ .panic s := by
+  intro fs
+  induction fs with
+  | nil => intro i input s; simp [filterLoop]
+  | cons f fs ih =>
+    intro i input s
+    unfold filterLoop
+    cases h : applyFilter ext (params i) f input with
+    | ok v => simp [Outcome.bind]; exact ih (i + 1) v s
+    | err e => simp [Outcome.bind]
+    | panic s' => exact absurd h (applyFilter_no_panic _ _ _ _ _)
+
+/-- **`Stream::decompressed_content` never panics**, for every stream dictionary, content and every
+behaviour of flate2 / weezl -/
+theorem decompressedContent_no_panic (ext : Ext) (st : Strm) (s : String) : decompressedContent ext st ≠ .panic s := by
+  unfold decompressedContent
+  split
+  · simp
+  · simp
+  · exact filterLoop_no_panic _ _ _ _ _ _
+
+/-- `get_page_content` returns `Ok` whenever the filters do not panic -/
+theorem getPageContent_ok (decomp : Dict → Bytes → Outcome Bytes) (hd : ∀ d c s, decomp d c ≠ .panic s)
+    (os : Objects) (pid : ObjId) : ∃ b, getPageContent decomp os pid = .ok b := by
+  unfold getPageContent
+  generalize getPageContents os pid = ids
+  suffices h : ∀ (ids : List ObjId) (b0 : Bytes), ∃ b, ids.foldl (fun (acc : Outcome Bytes) id =>
+      match acc with
+      | .ok sofar =>
+        match (getObject os id).bind Obj.asStream with
+        | none => .ok sofar
+        | some (d, c) =>
+          match decomp d c with
+          | .ok data => .ok (sofar ++ data)
+          | .err _ => .ok (sofar ++ c)
+          | .panic s => .panic s
+      | other => other) (.ok b0) = .ok b from h ids []
+  intro ids
+  induction ids with
+  | nil => intro b0; exact ⟨b0, rfl⟩
+  | cons id rest ih =>
+    intro b0
+    simp only [List.foldl_cons]
+    split
+    · exact ih b0
+    · rename_i d c _
+      cases hdc : decomp d c with
+      | ok data => exact ih _
+      | err e => exact ih _
+      | panic s => exact absurd hdc (hd d c s)
+
+/-- **`get_page_content` with the real filter chain (C09's model) always returns `Ok`** -/
+theorem getPageContent_filters_ok (ext : Ext) (os : Objects) (pid : ObjId) :
+    ∃ b, getPageContent (decompOf ext) os pid = .ok b :=
+  getPageContent_ok _ (fun _ _ _ => decompressedContent_no_panic _ _ _) os pid
+
+theorem extractPage_no_panic (ext : Ext) (os : Objects) (pid : ObjId) (s : String) : extractPage ext os pid ≠ .panic s := by
+  unfold extractPage
+  split
+  · simp
+  · rename_i s' h; exact absurd h (getPageFonts_total _ _ _)
+  · obtain ⟨b, hb⟩ := getPageContent_filters_ok ext os pid
+    rw [hb]
+    simp only []
+    split
+    · simp
+    · rename_i s' h
+      exact absurd h ((noPanic_iff _).mp (decodeContent_never_panics b) s')
+    · exact extract_never_panics _ _ _
+
+theorem joinPages_no_panic : ∀ (rs : List (Outcome UStr)), (∀ r ∈ rs, ∀ s, r ≠ .panic s) → ∀ s, joinPages rs ≠ .panic s := by
+  intro rs
+  induction rs with
+  | nil => intro _ s; simp [joinPages]
+  | cons r rest ih =>
+    intro h s
+    have hr := h r List.mem_cons_self
+    have hrest := ih (fun r' hr' => h r' (List.mem_cons_of_mem _ hr'))
+    unfold joinPages
+    split
+    · exact hr s
+    · rename_i s' _ hj; exact absurd hj (hrest s')
+    · simp
+    · simp
+    · simp
+
+/-- **`extract_text` never panics** (ToUnicode CMaps excluded — C15): for every document, every list
+of page numbers and every behaviour of flate2 / weezl, composing page lookup (C12/C13), fonts (C13),
+the filter chain (C09), the content parser (C04/C14) and the text loop with the one-byte tables
+(C16). Memory bound as for `get_pages`. -/
+theorem extractText_no_panic (memMax : Nat) (ext : Ext) (trailer : Dict) (os : Objects) (nums : List Nat)
+    (hmem : (2 * os.length + 4) * 12 ≤ memMax) (hM : memMax ≤ ISIZE_MAX) (s : String) :
+    extractTextDoc memMax ext trailer os nums ≠ .panic s := by
+  unfold extractTextDoc
+  rw [getPages_eq_pageIter memMax trailer os hmem hM]
+  simp only []
+  apply joinPages_no_panic
+  intro r hr s'
+  simp only [List.mem_map] at hr
+  obtain ⟨n, _, rfl⟩ := hr
+  split
+  · simp
+  · exact extractPage_no_panic _ _ _ _
 
 end Lopdf.Q13
